@@ -334,6 +334,9 @@ pub enum BodyShape {
     Truncated,
     Random,
     Empty,
+    /// Syntactically JSON, but with a byte that is not valid UTF-8 inside a
+    /// string literal (JSON requires UTF-8, so this is undecodable).
+    BadUtf8Json,
 }
 
 /// Produce body bytes for `kind` in `body_format` with the given shape.
@@ -369,7 +372,41 @@ pub fn make_body(kind: Kind, body_format: u16, shape: BodyShape, seed: u64) -> V
         }
         BodyShape::Random => crate::gens::fill((seed % 24) as usize + 1, seed),
         BodyShape::Empty => Vec::new(),
+        BodyShape::BadUtf8Json => match seed % 3 {
+            0 => b"\"a\xFFb\"".to_vec(),
+            1 => b"{\"a\": 1, \"b\": 2, \"s\": \"\xC3\x28\"}".to_vec(),
+            _ => b"[1, \"\xF0\x28\x8C\xBC\"]".to_vec(),
+        },
     }
+}
+
+/// Independent statement of the documented body-decoding contract for the
+/// serde-decoding handler kinds (docs/server.md, docs/client.md): JSON, UTF-8 and
+/// BEVE bodies are decoded; a body that does not decode is answered ParseError (5);
+/// any other body format is answered InvalidBody (4). `None` for kinds whose
+/// contract differs (slices, registry, struct, erased).
+pub fn decode_contract(kind: Kind, body_format: u16, body: &[u8]) -> Option<Result<(), u32>> {
+    enum Target {
+        Value,
+        Pair,
+    }
+    let target = match kind {
+        Kind::Json | Kind::JsonErr | Kind::JsonCtx | Kind::JsonB | Kind::JsonCtxB => Target::Value,
+        Kind::Typed | Kind::TypedBeve | Kind::TypedCtx | Kind::Jth | Kind::TypedB | Kind::TypedCtxB => Target::Pair,
+        _ => return None,
+    };
+    let ok = match body_format {
+        2 | 3 => match target {
+            Target::Value => serde_json::from_slice::<Value>(body).is_ok(),
+            Target::Pair => serde_json::from_slice::<Pair>(body).is_ok(),
+        },
+        1 => match target {
+            Target::Value => beve::from_slice::<Value>(body).is_ok(),
+            Target::Pair => beve::from_slice::<Pair>(body).is_ok(),
+        },
+        _ => return Some(Err(4)),
+    };
+    Some(if ok { Ok(()) } else { Err(5) })
 }
 
 pub fn body_format_name(f: u16) -> String {
